@@ -1,3 +1,5 @@
+#[cfg(renoir_verif)]
+use simrt::stdshim as std;
 use std::any::TypeId;
 use std::collections::HashMap;
 use std::fmt::Write;
@@ -152,6 +154,8 @@ impl Scheduler {
         self.build_execution_graph();
         self.network.build();
         self.network.log();
+        #[cfg(renoir_verif)]
+        crate::verif::on_graph(self.verif_snapshot());
 
         let mut join = vec![];
         let mut block_structures = vec![];
@@ -438,6 +442,46 @@ impl Scheduler {
             global_ids,
             batch_mode: block.batch_mode,
             is_only_one_strategy: block.is_only_one_strategy,
+        }
+    }
+}
+
+#[cfg(renoir_verif)]
+impl Scheduler {
+    fn verif_snapshot(&self) -> crate::verif::GraphSnapshot {
+        use crate::verif::coord_t;
+        let mut blocks: Vec<_> = self
+            .block_info
+            .iter()
+            .map(|(id, info)| {
+                let mut replicas: Vec<_> = info
+                    .replicas
+                    .values()
+                    .flatten()
+                    .map(|c| (coord_t(*c), info.global_ids[c]))
+                    .collect();
+                replicas.sort();
+                crate::verif::BlockSnapshot {
+                    id: *id,
+                    only_one: info.is_only_one_strategy,
+                    replicas,
+                }
+            })
+            .collect();
+        blocks.sort_by_key(|b| b.id);
+        let mut block_edges: Vec<_> = self
+            .next_blocks
+            .iter()
+            .flat_map(|(from, next)| next.iter().map(move |(to, _, fragile)| (*from, *to, *fragile)))
+            .collect();
+        block_edges.sort();
+        let (edges, addresses) = self.network.verif_snapshot();
+        crate::verif::GraphSnapshot {
+            host: self.config.host_id().unwrap(),
+            blocks,
+            block_edges,
+            edges,
+            addresses,
         }
     }
 }
